@@ -38,11 +38,11 @@ MODS = {
 
 def cases(tier, sd):
     out = []
-    reps = 2 if tier == "quick" else 6
+    reps = 2 if tier == "quick" else 30
     for name in MODS:
         for r in range(reps):
             out.append(dict(kind='module', module=name, seed=100 * sd + r))
-    for r in range(1 if tier == "quick" else 3):
+    for r in range(1 if tier == "quick" else 8):
         out.append(dict(kind='icpert', seed=100 * sd + r))
     return out
 
